@@ -66,6 +66,10 @@ func (p *RangeProver) Commit() []*big.Int {
 	for i := range p.D {
 		out = append(out, mulmod(n, PowSigned(R, p.dRand[i], n), PowSigned(pk.S, p.vRand[i], n)))
 	}
+	prefix := []*big.Int{big.NewInt(int64(p.Sign)), new(big.Int).SetUint64(uint64(p.A)), new(big.Int).Set(p.K)}
+	for i := range p.D {
+		prefix = append(prefix, new(big.Int).Set(p.c[i]))
+	}
 	if p.ForceC != nil && new(big.Int).GCD(nil, nil, p.ForceC, n).Cmp(one) != 0 && new(big.Int).Mod(p.ForceC, n).Sign() == 0 {
 		// C_i = 0 mod N: whatever the responses are, a verifier that multiplies C_i into its reconstruction gets 0 everywhere
 		// (with one position alone: in the relation for m, which multiplies all C_i, and in that position's own relation)
@@ -75,7 +79,8 @@ func (p *RangeProver) Commit() []*big.Int {
 			}
 		}
 	}
-	return out
+	// the statement and the C_i are covered by the challenge (they come first), then the Schnorr commitments
+	return append(prefix, out...)
 }
 
 // Respond builds the proof for challenge c.
